@@ -22,8 +22,16 @@ impl NodeClock {
     pub fn new(offset_ms: u64) -> NodeClock {
         NodeClock { offset_ns: offset_ms.saturating_mul(1_000_000), jump_ns: 0 }
     }
+    /// Sessions are constructed at node time BASE_NS (not 0) so that a backward clock jump can
+    /// put the clock *before* the session's start (the `elapsed() == Err` branch).
+    pub const BASE_NS: u64 = 1 << 60;
+
+    pub fn uptime_ms(&self, sim_now: u64) -> u64 {
+        self.node_time(sim_now).saturating_sub(Self::BASE_NS) / 1_000_000
+    }
+
     pub fn node_time(&self, sim_now: u64) -> u64 {
-        let t = sim_now as i128 + self.offset_ns as i128 + self.jump_ns;
+        let t = Self::BASE_NS as i128 + sim_now as i128 + self.offset_ns as i128 + self.jump_ns;
         if t < 0 {
             0
         } else if t > u64::MAX as i128 {
@@ -102,8 +110,12 @@ impl Common {
         }
     }
 
-    pub fn set_clock(&self, ctx: &Ctx) {
-        rml_rtmp::verif_hooks::set_clock_ns(self.clock.node_time(ctx.now_ns));
+    pub fn set_clock(&self, ctx: &mut Ctx) {
+        let t = self.clock.node_time(ctx.now_ns);
+        if t < NodeClock::BASE_NS {
+            ctx.probe("clock.before_session_start");
+        }
+        rml_rtmp::verif_hooks::set_clock_ns(t);
     }
 
     /// Record the packets one call returned (in production order) and decode them with the
